@@ -36,13 +36,13 @@ def run(chk):
                     'uninterpreted predicate of the proof bytes')
     import os
     if os.environ.get('VERIF_ONLY') == 'callsite':  # development aid: one kernel alone (never a registered command)
-        doscmint_callsite_kernel(chk, it)
+        chk.guard(doscmint_callsite_kernel, chk, it)
         return
-    apply_kernel(chk, it)
-    doscmint_kernel(chk, it)
-    doscmint_callsite_kernel(chk, it)
-    fee_kernel(chk, it)
-    seal_kernels(chk, it)
+    chk.guard(apply_kernel, chk, it)
+    chk.guard(doscmint_kernel, chk, it)
+    chk.guard(doscmint_callsite_kernel, chk, it)
+    chk.guard(fee_kernel, chk, it)
+    chk.guard(seal_kernels, chk, it)
 
 
 def apply_kernel(chk, it):
